@@ -59,7 +59,8 @@ MANIFEST = dict(
 )
 FLOORS = {"C02.1": 1, "C02.2": 8, "C02.3": 5, "C02.4": 3, "C02.5": 5,
           "C02.6": 14, "C02.7": 30, "C02.8": 20,
-          "C02.9": 12, "C02.10": 4, "C02.11": 30, "C02.12": 6}
+          "C02.9": 12, "C02.10": 4, "C02.11": 30, "C02.12": 6,
+          "C02.13": 12}
 
 RPE = "evo.core.metrics.RPE"
 IDP = "evo.core.metrics.id_pairs_from_delta"
@@ -243,6 +244,18 @@ def check(ctx):
     from .c01 import _alignment
     ctx.section(_alignment, ctx, "C02.11")
     ctx.section(_reduction, ctx, "C02.12")
+    ctx.section(_pair_dispatch, ctx, "C02.13")
+
+
+def _pair_dispatch(ctx, rule: str):
+    """'relative errors over the pose pairs that are delta apart in the
+    delta unit': RPE takes its pairs from id_pairs_from_delta, which must hand
+    delta, tolerance, the angle unit and the all-pairs switch to the filter
+    of the unit — each to the parameter of that meaning (instances of C10.6,
+    the dispatch table)"""
+    from ..core import import_rules
+    n = import_rules(ctx, "c10", ("C10.6",), rule)
+    ctx.require(n >= 12, f"{rule}: pair-filter dispatch instances not found")
 
 
 def _reduction(ctx, rule: str):
